@@ -41,7 +41,8 @@ from ..core import Acc, h64, vacuity
 
 LEVEL = 'model_checking'
 RULE = ('full cartesian product: (M) every sparsity mask of every shape of the tier, metadata on both '
-        'axes, vocabulary type; (S) every id style on fixed masks; (K) every metadata kind on fixed masks; '
+        'axes, vocabulary type; (S) every id style on fixed masks; (K) every metadata kind on fixed masks; (H) generated_by / table id strings with comma, braces, '
+        'quotes, backslash, non-ASCII on fixed masks; '
         'x both axes x every non-empty subset of the axis x every order of the request (all permutations, '
         'axes have <= 3 ids) x variants A, B(str ids, bytes ids), C(handle, lines), D(9 JSON spellings), E; '
         'plus, for every subset, the request with an unknown id appended / prepended and the unknown id '
@@ -66,6 +67,8 @@ SERS = [
 
 FIXED = {(2, 3): [0b011101, 0b000101], (3, 2): [0b100110, 0b001101], (3, 3): [0b100010101, 0b000110011]}
 GEN = 'verif-harness c14'
+# generated_by strings of product H (plain / comma and braces / quotes, backslash, non-ASCII)
+GENS = [GEN, 'tool 1.9, patched {x}', 'gen "q" \\ \u65e5\u672c']
 COLON = 'space-before-colon'
 
 
@@ -104,6 +107,12 @@ def table_specs(tier, seed):
                 specs.append({'prod': 'S', 'shape': list(shape), 'mask': mask, 'rot': rot, 'pool': 'hard',
                               'obs_style': st, 'samp_style': st, 'obs_md': 'text', 'samp_md': 'taxonomy',
                               'header': 1, 'type': 'OTU table'})
+    for shape in tier_shapes(tier):
+        for g in range(len(GENS)):
+            for hd in (1, 2):
+                specs.append({'prod': 'H', 'shape': list(shape), 'mask': FIXED[shape][0], 'rot': rot,
+                              'pool': 'hard', 'obs_md': 'text', 'samp_md': 'text', 'header': hd, 'gen': g,
+                              'type': vocab[(g + hd + seed) % len(vocab)]})
     kinds = D.MD_KINDS
     for shape in tier_shapes(tier):
         mask = FIXED[shape][0]
@@ -193,6 +202,7 @@ def artefacts(case, acc, tmp):
     _CACHE.clear()
     val = {'notes': []}
     t = D.build(spec)
+    gen = GENS[spec.get('gen', 0)]
     val['src'] = snapshot(t)
     val['nnz'] = int(np.count_nonzero(t.matrix_data.toarray()))
     tag = '%016x' % h64(key[1])
@@ -201,7 +211,7 @@ def artefacts(case, acc, tmp):
     acc.trans += 1
     try:
         with h5py.File(h5, 'w') as f:
-            t.to_hdf5(f, GEN)
+            t.to_hdf5(f, gen)
         val['h5'] = h5
     except Exception as e:
         val['h5'] = None
@@ -219,7 +229,7 @@ def artefacts(case, acc, tmp):
     acc.trans += 1
     val['text'] = val['doc'] = val['json_base'] = None
     try:
-        val['text'] = t.to_json(GEN)
+        val['text'] = t.to_json(gen)
         val['doc'] = json.loads(val['text'])
     except Exception as e:
         val['text'] = None
@@ -537,7 +547,7 @@ CLAUSES = ['clause:equals-load-then-filter:' + v for v in 'ABCDE'] + \
           ['clause:unknown-id-refused:' + v for v in 'ABDE'] + \
           ['clause:D-output-is-json', 'clause:D-identical-across-serialisations', 'clause:drop-exercised',
            'order:file', 'order:reversed', 'order:other', 'idform:str-ids', 'idform:bytes-ids',
-           'unknown:back', 'unknown:front', 'unknown:only', 'prod:M', 'prod:S', 'prod:K',
+           'unknown:back', 'unknown:front', 'unknown:only', 'prod:M', 'prod:S', 'prod:K', 'prod:H',
            'axis:observation', 'axis:sample'] + ['ser:' + n for n, _, _ in SERS]
 
 
@@ -556,9 +566,10 @@ def run(run):
     specs = table_specs(run.tier, run.seed)
     run.extra['bound'] = {
         'shapes_all_masks': tier_shapes(run.tier),
-        'tables': {p: sum(1 for s in specs if s['prod'] == p) for p in 'MSK'},
+        'tables': {p: sum(1 for s in specs if s['prod'] == p) for p in 'MSKH'},
         'id_styles_on_fixed_masks': D.ID_STYLES,
         'metadata_kinds_on_fixed_masks': D.MD_KINDS,
+        'header_strings_on_fixed_masks': {'generated_by': GENS, 'table_id (domain header index)': [1, 2]},
         'fixed_masks': {'%dx%d' % k: v for k, v in FIXED.items() if k in tier_shapes(run.tier)},
         'axes': ['observation', 'sample'],
         'subsets': 'all non-empty subsets of the axis',
